@@ -349,8 +349,111 @@ def run_final(case, ctx):
     ctx.nontrivial(changed)
 
 
+# --------------------------------------------------------------------------- collapses inside Solve, restart in between
+@st.composite
+def collapse_cases(draw, tier):
+    """Solve() under Or(ChangeOverGeneration, CollapseAt(0.0)) on a bowl whose first coordinates have their optimum at 0
+    and converge at different speeds, so that Solve goes through collapses at different generations; a restart file of
+    some generation in between is restored and continued with the public API (Step until a stop, Collapse, again)"""
+    dim = draw(st.integers(3, 4))
+    w = [draw(st.sampled_from([50.0, 20.0])), draw(st.sampled_from([0.5, 1.0, 2.0]))] + \
+        [draw(st.sampled_from([1.0, 5.0])) for _ in range(dim - 2)]
+    a = [0.0, 0.0] + [draw(st.sampled_from([1.0, 2.0, -1.5])) for _ in range(dim - 2)]
+    return dict(solver=draw(st.sampled_from(['NM', 'DE', 'DE'])), dim=dim, w=w, a=a, seed=draw(st.integers(0, 2 ** 20)),
+                npop=draw(st.integers(8, 12)), window=draw(st.sampled_from([3, 5, 8])), crash=draw(st.floats(0.05, 0.95)),
+                path=draw(st.sampled_from(['load', 'dill'])))
+
+
+def _collapse_build(case, ctx, fn):
+    from mystic.termination import Or, CollapseAt, ChangeOverGeneration as COG
+    lab.reset_registry(); lab.seed_rng(case['seed'])
+    s = lab.make_solver(case['solver'], case['dim'], case['npop'])
+    if case['solver'] == 'DE':
+        s.SetRandomInitialPoints([0.0] * case['dim'], [3.0] * case['dim'])
+    else:
+        s.SetInitialPoints([1.5, 2.5, 0.5, 3.0][:case['dim']])
+    s.SetEvaluationLimits(generations=300)
+    s.SetTermination(Or(COG(1e-14, 40), CollapseAt(0.0, tolerance=1e-3, generations=case['window'])))
+    cost = lab.Cost('c0', dict(fam='quad', a=case['a'], w=case['w'], ret='float'))
+    s.SetObjective(cost)
+    s.SetSaveFrequency(1, fn)
+    return s
+
+
+def _final(s):
+    return dict(generations=int(s.generations), evaluations=int(s.evaluations), bestSolution=lab.lst(s.bestSolution),
+                bestEnergy=float(s.bestEnergy), population=lab.lst(s.population), popEnergy=lab.lst(s.popEnergy),
+                energy_history=lab.lst(s.energy_history))
+
+
+def run_collapse(case, ctx):
+    import dill
+    from mystic.solvers import LoadSolver
+    d = ctx.mkdtemp(); fn = os.path.join(d, 'state.pkl')
+    s = _collapse_build(case, ctx, fn)
+    dumps = {}; collapses = []
+
+    def cb(x):
+        g = int(s.generations)
+        if os.path.exists(fn):
+            with open(fn, 'rb') as fh:
+                dumps[g] = (fh.read(), lab.rng_state())
+    s.Solve(callback=cb, disp=0)
+    want = _final(s)
+    # (when the collapses happened: a collapsed coordinate is exactly 0.0 from then on - read off the step monitor, the
+    #  solver itself is left untouched: anything hung onto it would travel into the restart files)
+    hist = [lab.fvec(x) for x in s.solution_history]
+    for i in range(2):
+        first = next((g for g, x in enumerate(hist) if x[i] == 0.0 and all(y[i] == 0.0 for y in hist[g:])), None)
+        if first is not None:
+            collapses.append(first)
+    collapses.sort()
+    if want['generations'] < 4 or not dumps:
+        ctx.exclude('run-too-short'); return
+    gens = sorted(g for g in dumps if 0 < g < want['generations'])
+    if not gens:
+        ctx.exclude('no-restart-file-inside-the-run'); return
+    if len(collapses) >= 2 and case['seed'] % 4:
+        # mostly: a restart file written after one collapse was applied and before the next
+        inner = [g for g in gens if collapses[0] <= g < collapses[-1]]
+        gens = inner or gens
+    c = gens[min(len(gens) - 1, int(case['crash'] * len(gens)))]
+    data, rng = dumps[c]
+    if case['path'] == 'load':
+        f2 = os.path.join(d, 'copy.pkl')
+        with open(f2, 'wb') as fh: fh.write(data)
+        s2 = LoadSolver(f2)
+    else:
+        s2 = dill.loads(data)
+    lab.set_rng_state(rng)
+    ctx.expect(int(s2.generations) == c, 'C06.resume', lambda: dict(path='collapse', restored_generation=int(s2.generations), file_of_generation=c))
+    steps = 0
+    try:
+        while True:                       # what Solve does, spelled out with the public API
+            while not s2.Step():
+                steps += 1
+                if steps > 400: raise RuntimeError('continuation does not stop')
+            if not s2.Collapse():
+                break
+        got = _final(s2); err = None
+    except Exception as e:              # noqa
+        got = None; err = '%s: %s' % (type(e).__name__, e)
+    ctx.expect(err is None, 'C06.resume', lambda: dict(path='collapse', solver=case['solver'], restored_at=c, collapses_at=collapses,
+                                                       error=err, note='the restored solver cannot be continued'))
+    if got is not None:
+        dk = lab.snap_equal(want, got)
+        ctx.expect(dk is None, 'C06.resume', lambda: dict(path='collapse', solver=case['solver'], restored_at=c, collapses_at=collapses, differs=dk,
+                                                          want=_brief(want, dk), got=_brief(got, dk)))
+    between = any(g <= c for g in collapses) and any(g > c for g in collapses)
+    ctx.label('solver:' + case['solver'], 'path:collapse/' + case['path'], 'collapses:%d' % min(len(collapses), 3))
+    if between: ctx.label('restart-between-two-collapses')
+    ctx.nontrivial(between)
+
+
 TESTS = [Test('resume', run_case, strategy=lambda tier: cases(tier),
               examples={'quick': 1600, 'thorough': 40000}),
+         Test('collapse', run_collapse, strategy=lambda tier: collapse_cases(tier),
+              examples={'quick': 48, 'thorough': 1600}),
          Test('final', run_final, strategy=lambda tier: final_cases(tier),
               examples={'quick': 640, 'thorough': 16000})]
 
